@@ -4,6 +4,7 @@ import (
 	"bytes"
 	"context"
 	"fmt"
+	"net"
 	"sort"
 	"time"
 
@@ -173,7 +174,9 @@ func (c *simConnector) Connect(r *replication.Replica) error {
 type replicaNode struct {
 	name    string
 	link    *simnet.Link
+	conn    *simConnector
 	e       *engine.EngineFacade
+	mgr     *replication.Manager // when the manager seams are available
 	rep     *replication.Replica
 	rec     *recApplier
 	running bool
@@ -189,6 +192,7 @@ type replCluster struct {
 	cfg      ReplCfg
 	pk, rk   kit.Knobs
 	pe       *engine.EngineFacade
+	pmgr     *replication.Manager // when the manager seams are available
 	primary  *replication.Primary
 	replicas []*replicaNode
 	onApply  func(rn *replicaNode, a *recApplied)
@@ -201,7 +205,61 @@ func newReplCluster(cfg ReplCfg, pk, rk kit.Knobs, nrep int, link simnet.LinkCfg
 		cl.replicas = append(cl.replicas, &replicaNode{name: name, link: cl.net.NewLink(name, link)})
 	}
 	cl.net.Srv.Tag = func() { kit.TagNode(cl.fs, "n1") }
+	for _, rn := range cl.replicas {
+		rn.conn = &simConnector{link: rn.link}
+	}
+	if replication.VerifHooked {
+		// replication.Manager itself starts primary and replicas; its three
+		// contacts with the outside world are routed to the simulation
+		replication.VerifListen = func(addr string) (net.Listener, error) { return simnet.NewListener(addr), nil }
+		replication.VerifNewConnector = func() replication.PrimaryConnector { return routeConnector{cl} }
+		replication.VerifWrapApplier = func(addr string, a replication.WALEntryApplier) replication.WALEntryApplier {
+			rn := cl.byAddr(addr)
+			if rn == nil {
+				return a
+			}
+			cl.wrapApplier(rn, a)
+			return rn.rec
+		}
+	}
 	return cl
+}
+
+func (cl *replCluster) byAddr(addr string) *replicaNode {
+	for _, rn := range cl.replicas {
+		if rn.name+":50053" == addr {
+			return rn
+		}
+	}
+	return nil
+}
+
+// routeConnector finds the node a Replica belongs to by its listener address.
+type routeConnector struct{ cl *replCluster }
+
+func (c routeConnector) Connect(r *replication.Replica) error {
+	rn := c.cl.byAddr(r.VerifListenerAddr())
+	if rn == nil {
+		return fmt.Errorf("simulation: no node for replica %s", r.VerifListenerAddr())
+	}
+	return rn.conn.Connect(r)
+}
+
+// wrapApplier puts a fresh recorder around the node's applier.
+func (cl *replCluster) wrapApplier(rn *replicaNode, inner replication.WALEntryApplier) {
+	old := rn.rec
+	rn.rec = newRecApplier(inner)
+	if old != nil {
+		// the replica's data survives a restart: so does what it must equal
+		for k, v := range old.model {
+			rn.rec.model[k] = v
+		}
+	}
+	rn.rec.onApply = func(a *recApplied) {
+		if cl.onApply != nil {
+			cl.onApply(rn, a)
+		}
+	}
 }
 
 // setDiskLatency gives every state-changing I/O of every node a virtual
@@ -222,6 +280,24 @@ func (cl *replCluster) startPrimary() error {
 	kit.OnNode(cl.fs, "n1", "primary-start", func() {
 		cl.pe, err = kit.OpenEngine("n1", cl.pk)
 		if err != nil {
+			return
+		}
+		if replication.VerifHooked {
+			mc := replication.DefaultManagerConfig()
+			mc.Enabled, mc.Mode, mc.ListenAddr = true, replication.ReplicationModePrimary, "n1:50052"
+			mc.PrimaryConfig = cl.cfg.primaryConfig()
+			if cl.pmgr, err = replication.NewManager(cl.pe, mc); err != nil {
+				return
+			}
+			if err = cl.pmgr.Start(); err != nil {
+				return
+			}
+			cl.primary = cl.pmgr.VerifPrimary()
+			if cl.primary == nil {
+				err = fmt.Errorf("manager started no primary")
+				return
+			}
+			cl.net.Srv.Impl = cl.primary
 			return
 		}
 		w := cl.pe.GetWAL()
@@ -262,24 +338,33 @@ func (cl *replCluster) startReplica(i int) error {
 		if err != nil {
 			return
 		}
-		old := rn.rec
-		rn.rec = newRecApplier(replication.NewEngineApplier(rn.e))
-		if old != nil {
-			// the replica's data survives a restart: so does what it must equal
-			for k, v := range old.model {
-				rn.rec.model[k] = v
+		if replication.VerifHooked {
+			mc := replication.DefaultManagerConfig()
+			mc.Enabled, mc.Mode = true, replication.ReplicationModeReplica
+			mc.PrimaryAddr, mc.ListenAddr = "n1:50052", rn.name+":50053"
+			mc.ReplicaConfig = cl.cfg.replicaConfig(rn.name)
+			if rn.mgr, err = replication.NewManager(rn.e, mc); err != nil {
+				return
 			}
-		}
-		rn.rec.onApply = func(a *recApplied) {
-			if cl.onApply != nil {
-				cl.onApply(rn, a)
+			if err = rn.mgr.Start(); err != nil {
+				return
 			}
+			rn.rep = rn.mgr.VerifReplica()
+			if rn.rep == nil || rn.rec == nil {
+				err = fmt.Errorf("manager started no replica (or did not pass through the applier seam)")
+				return
+			}
+			rn.running = true
+			rn.starts++
+			rn.lastReported = 0
+			return
 		}
+		cl.wrapApplier(rn, replication.NewEngineApplier(rn.e))
 		rn.rep, err = replication.NewReplica(0, rn.rec, cl.cfg.replicaConfig(rn.name))
 		if err != nil {
 			return
 		}
-		rn.rep.SetConnector(&simConnector{link: rn.link})
+		rn.rep.SetConnector(rn.conn)
 		if err = rn.rep.Start(); err != nil {
 			return
 		}
@@ -298,7 +383,11 @@ func (cl *replCluster) stopReplica(i int) (stuck bool) {
 		return false
 	}
 	died := kit.OnNode(cl.fs, rn.name, rn.name+"-stop", func() {
-		rn.rep.Stop()
+		if rn.mgr != nil {
+			rn.mgr.Stop()
+		} else {
+			rn.rep.Stop()
+		}
 		rn.link.ResetConns("replica stopped")
 		rn.e.Close()
 	})
@@ -315,7 +404,11 @@ func (cl *replCluster) stopReplicaKeepEngine(i int) (stuck bool) {
 		return false
 	}
 	return kit.OnNode(cl.fs, rn.name, rn.name+"-stop", func() {
-		rn.rep.Stop()
+		if rn.mgr != nil {
+			rn.mgr.Stop()
+		} else {
+			rn.rep.Stop()
+		}
 		rn.link.ResetConns("replica stopped")
 	})
 }
